@@ -58,6 +58,22 @@ def lex(text, name="file.c"):
     return dict(tokens=toks, diags=diags, exc=exc, excframe=excframe, end=lx._Lexer__pos + 1)
 
 
+def exc_site(e):
+    """exception type @ innermost norminette frame < nearest rule module frame (the crash site used as finding key)"""
+    import traceback
+    tb = traceback.extract_tb(e.__traceback__)
+    fr = [x for x in tb if "/norminette/" in x.filename]
+    if not fr:
+        return type(e).__name__
+    where = f"{os.path.basename(fr[-1].filename)}:{fr[-1].name}"
+    rules = [x for x in fr if "/rules/" in x.filename]
+    via = f"<{os.path.basename(rules[-1].filename)[:-3]}" if rules and rules[-1] is not fr[-1] else ""
+    name = type(e).__name__
+    if name == "_TO":
+        name = "Hang"
+    return f"{name}@{where}{via}"
+
+
 def run_file(text, name="file.c", debug=0, added=None):
     """Lexer + Context + Registry.run on one in-memory file.  Returns
     dict(status, diags=[(level, code, line, col, text)], fatal=None|msg, exc=None|type, stdout)."""
@@ -84,9 +100,7 @@ def run_file(text, name="file.c", debug=0, added=None):
     except BaseException as e:  # noqa
         import traceback
         tb = traceback.extract_tb(e.__traceback__)
-        fr = [x for x in tb if "/norminette/" in x.filename]
-        where = f"{os.path.basename(fr[-1].filename)}:{fr[-1].name}" if fr else "?"
-        res["exc"] = f"{type(e).__name__}@{where}"
+        res["exc"] = exc_site(e)
     res["stdout"] = out.getvalue()
     if res["fatal"] is None and res["exc"] is None:
         res["status"] = f.errors.status
@@ -141,9 +155,7 @@ def run_file_traced(text, name="file.c", debug=0, added=None):
     except BaseException as e:  # noqa
         import traceback
         tb = traceback.extract_tb(e.__traceback__)
-        fr = [x for x in tb if "/norminette/" in x.filename]
-        where = f"{os.path.basename(fr[-1].filename)}:{fr[-1].name}" if fr else "?"
-        res["exc"] = f"{type(e).__name__}@{where}"
+        res["exc"] = exc_site(e)
     res["stdout"] = out.getvalue()
     if res["fatal"] is None and res["exc"] is None:
         res["status"] = f.errors.status
